@@ -445,7 +445,9 @@ func rmwMutex(s rmwSite) string {
 				return
 			}
 			if strings.HasSuffix(ssax.FuncID(ssax.CalleeObj(c2)), ".Unlock") && ssax.Path(c2.Common().Args[0]) == mp {
-				if ssax.ReachableFrom(s.fn, s.get, in2, nil, nil) && ssax.ReachableFrom(s.fn, in2, s.set, nil, nil) {
+				// released anywhere between taking it and the write-back: between the read and the write, or already before
+				// the read (a registry mutex that only guards the lookup of a finer lock)
+				if ssax.ReachableFrom(s.fn, in, in2, nil, nil) && ssax.ReachableFrom(s.fn, in2, s.set, nil, nil) {
 					released = true
 				}
 			}
